@@ -181,13 +181,14 @@ macro_rules | `(tactic| core_tac) => `(tactic| first | exact ⟨rfl, rfl, rfl, r
 /-- one backward step on a goal `Evolves P N a (op … s …).store`: extended with `macro_rules` after
     every lemma -/
 syntax "ev_step" : tactic
-macro_rules | `(tactic| ev_step) => `(tactic| (refine Evolves.mod ?_ _ _ (fun _ _ => Good.core (by core_tac))))
+macro_rules
+  | `(tactic| ev_step) => `(tactic| (refine Evolves.mod ?_ _ _ ?hf; case hf => (intro _ _; refine Good.core ?_; core_tac)))
 macro_rules | `(tactic| ev_step) => `(tactic| with_reducible apply Evolves.unlink)
 macro_rules | `(tactic| ev_step) => `(tactic| with_reducible apply Evolves.remove)
 macro_rules | `(tactic| ev_step) => `(tactic| ev_hyp)
 
 /-- repeat `ev_step`, normalising `.store`, splitting `if`/`match` and eliminating result pairs on the way -/
 macro "ev" : tactic =>
-  `(tactic| repeat (first | assumption | exact Evolves.refl _ | ev_step | simp only [crp_store] | subst_fst | split))
+  `(tactic| repeat' (first | assumption | exact Evolves.refl _ | ev_step | simp only [crp_store] | subst_fst | split))
 
 end H2V.Lemmas.ConnResetP
